@@ -36,8 +36,8 @@ PROPS = {
         modules=["specs.rbcommon", "specs.formatter"],
         bounded=[("bounded.c09", "run")],
         assumes=["A1", "A6", "A8", "A9", "A13"],
-        trusted=["cmd_paths and _indent_blocks are proved relative to the assumed contract of blocks_and_context (a well-bracketed token "
-                 "stream); blocks_and_context itself, block_exit strings and apply_deploy_rulebook: bounded only",
+        trusted=["CommonFormatter.patch (the text shown), cmd_paths (what is sent), _blocks, _indent_blocks and _filtered_block_marks are "
+                 "proved relative to the assumed contract of blocks_and_context (a well-bracketed token stream); blocks_and_context itself, block_exit strings and apply_deploy_rulebook: bounded only",
                  "hardware flags are booleans with the hierarchy axiom as precondition of common.apply"],
     ),
     "C14": dict(
@@ -146,10 +146,11 @@ PROPS = {
     ),
     "C04": dict(
         level="exploration",
-        modules=["specs.tabparser"],
+        modules=["specs.tabparser", "specs.formatter"],
         bounded=[("bounded.c04", "run")],
         assumes=["A1", "A7", "A8", "A9", "A13"],
-        trusted=["the join side: _indent_blocks is proved relative to the assumed blocks_and_context contract; the brace / RouterOS / Cisco / "
+        trusted=["the join side: CommonFormatter.join is proved to be the newline-joined rows of the indented token stream (_blocks, "
+                 "_indent_blocks, _filtered_block_marks proved) relative to the assumed blocks_and_context contract; the brace / RouterOS / Cisco / "
                  "Huawei split functions are bounded only; the indentation parse side incl. parse_to_tree is the proved C05 chain"],
     ),
     "C11": dict(
